@@ -1016,6 +1016,7 @@ mod replay {
     }
 
     pub fn replay(p: impl Fn() -> Params, sched: &[(u8, usize)]) -> X {
+        let mut stalled_before = false;
         for _attempt in 0..ATTEMPTS {
             let mut run = match Run::start(p()) { Some(r) => r, None => { if debug() { eprintln!("start failed"); } continue } };
             let mut obs = Vec::new();
@@ -1049,6 +1050,14 @@ mod replay {
                     obs.push(X::L(vec![X::N(77)]));
                     run.abort();
                     return X::L(vec![X::L(obs), X::L(vec![])]);
+                }
+                Some(Fail::Stalled(_)) if !stalled_before => {
+                    // An expected arrival did not happen within STEP_TIMEOUT. If the code really does something else it
+                    // will do so again; a machine that is overloaded for seconds will (hopefully) not: run once more.
+                    if debug() { eprintln!("stalled at {}: once more", obs.len()); }
+                    stalled_before = true;
+                    run.abort();
+                    continue;
                 }
                 Some(Fail::Stalled(_)) => {
                     // the code did not do what the schedule expects of it: report what was seen and the outcome
